@@ -48,6 +48,7 @@ func c09Gen(r *Rng, tier string, i int) Sx {
 	onErrPanics := r.Chance(1, 10)
 	victim := cands[r.Intn(len(cands))]
 	when := r.Intn(3) // before Next / after Next / (main or no-Next handler) in the middle
+	abortFirst, wrapFirst := r.Chance(1, 5), r.Chance(1, 6)
 	body := func(h int, callsNext bool) []Sx {
 		ops := []Sx{ev(h * 10)}
 		if r.Chance(1, 4) {
@@ -63,6 +64,12 @@ func c09Gen(r *Rng, tier string, i int) Sx {
 			ops = append(ops, L(A("ae"), I(h)))
 		}
 		boom := []Sx{ev(8000 + h), L(A("panic"), I(h))}
+		if abortFirst { // the chain is already aborted (with a status of its own) when the panic happens
+			boom = append([]Sx{L(A("abs"), I(401))}, boom...)
+		}
+		if wrapFirst { // the response writer has been wrapped by this handler (and is not restored: the panic comes first)
+			boom = append([]Sx{L(A("rr"))}, boom...)
+		}
 		if h == victim && !onErrPanics && (when == 0 || !callsNext) {
 			ops = append(ops, boom...)
 		}
@@ -77,9 +84,13 @@ func c09Gen(r *Rng, tier string, i int) Sx {
 	}
 	for _, h := range cands {
 		callsNext := h != mainA && h != fb404 && h != fb405 && r.Chance(5, 6)
-		hs = append(hs, L(I(h), LS(body(h, callsNext))))
+		hd := L(I(h), LS(body(h, callsNext)))
+		if !callsNext && r.Chance(1, 3) { // written as a net/http handler behind WrapHTTPHandler & co.
+			hd.List = append(hd.List, A("std"))
+		}
+		hs = append(hs, hd)
 	}
-	hs = append(hs, L(I(mainB), L(ev(mainB*10), wwr("b"))))
+	hs = append(hs, L(I(mainB), L(ev(mainB*10), L(A("snap")), wwr("b"))))
 	if !customNF {
 		hs = append(hs, L(I(fb404), L(ev(fb404*10))))
 	}
@@ -104,7 +115,9 @@ func c09Gen(r *Rng, tier string, i int) Sx {
 		opts = append(opts, L(A("na")))
 	}
 	// the hook
-	switch r.Intn(6) {
+	switch r.Intn(7) {
+	case 6: // the hook answers through AbortWithStatus
+		opts = append(opts, L(A("onpanic"), L(ev(7777), L(A("snap")), L(A("abs"), I(500)), wwr("oops"))))
 	case 0: // no hook: the panic propagates
 	case 1:
 		opts = append(opts, L(A("onpanic"), L(ev(7777), L(A("snap")))))
